@@ -176,8 +176,15 @@ func c05Order(st c05Step) []c05Ev {
 	return out
 }
 
+// c05CC is the coalesce flag an event is gossiped with: a fixed attribute of the event (half of them carry
+// it). Push/pull states do not carry the flag, so a replay of the same event arrives without it; the flag is
+// a delivery hint and not part of the event's identity (seeded C05-i).
+func c05CC(e c05Ev) bool {
+	return (e.LTime+uint64(len(e.Name))+uint64(len(e.Payload))+uint64(e.Payload[len(e.Payload)-1]))%2 == 1
+}
+
 func c05Gossip(e c05Ev) []byte {
-	return wire.Encode(wire.UserEvent, &wire.MsgUserEvent{LTime: e.LTime, Name: e.Name, Payload: []byte(e.Payload)})
+	return wire.Encode(wire.UserEvent, &wire.MsgUserEvent{LTime: e.LTime, Name: e.Name, Payload: []byte(e.Payload), CC: c05CC(e)})
 }
 
 func c05String(B int, steps []c05Step) string {
@@ -342,7 +349,7 @@ func c05Sequential(t *testing.T, rng *rand.Rand) (viol []string, stats map[strin
 				m.arrived[e] = true
 				expected[e] = true
 				m.clock++
-				if err := nd.S.UserEvent(e.Name, []byte(e.Payload), false); err != nil {
+				if err := nd.S.UserEvent(e.Name, []byte(e.Payload), c05CC(c05Ev{Name: e.Name, Payload: e.Payload})); err != nil {
 					viol = append(viol, "UserEvent: "+err.Error())
 				}
 			}
